@@ -420,8 +420,9 @@ def rotation_matrix_word(ctx, repo):
             return vec(e.left, env) + [(k_, w_, t_, not i_) for k_, w_, t_, i_ in vec(e.right, env)]
         if isinstance(e, _a.BinOp) and isinstance(e.op, _a.Mult):
             return vec(e.left, env) + vec(e.right, env)
-        if isinstance(e, _a.Call) and isinstance(e.func, _a.Attribute) and e.func.attr == "_determine_positive_directions" and len(e.args) == 1:
-            return [("D", who(e.args[0], env), False, False)]
+        if isinstance(e, _a.Call) and isinstance(e.func, _a.Attribute) and e.func.attr == "_determine_positive_directions" and \
+                len(e.args) + len(e.keywords) == 1:
+            return [("D", who(e.args[0] if e.args else e.keywords[0].value, env), False, False)]
         if isinstance(e, _a.Call) and src(e.func) in ("np.array", "np.asarray") and e.args:
             return vec(e.args[0], env)
         raise Unknown(f"sign vector {src(e)[:60]}")
